@@ -382,13 +382,13 @@ theorem printed_thresh (cfg : Config) (i cap esc ns ne : Bool) (e : Expr) (hw : 
 def LabelOK (cfg : Config) (g : Grapheme) : Prop := (GOK g ∧ GSem g) ∧ okW cfg g
 
 /-- the clusters S4 hands to the trie honour the thresholds -/
-theorem rep_clusters_ok (cfg : Config) (hp : RepPrintNA cfg) (env : Env) (ws : List Str) (st : Stages)
+theorem rep_clusters_ok (cfg : Config) (hrep : cfg.rep = true) (hmr : 1 ≤ cfg.minRep) (env : Env) (ws : List Str) (st : Stages)
     (h : regExpFrom cfg env ws = .ok st) (hseg : ∀ w ∈ storedCases cfg env ws, SegOK env w)
     (hlen : ∀ w ∈ storedCases cfg env ws, (subPieces (env.segOf w)).length ≤ 1000) :
     ∀ cl ∈ st.clusters, (∀ g ∈ cl, LabelOK cfg g) ∧ ∀ g ∈ cl, g.min = g.max := by
-  have hlit := rep_clusters_lit cfg hp env ws st h hseg hlen
+  have hlit := rep_clusters_lit cfg hrep hmr env ws st h hseg hlen
   obtain ⟨hsorted, hcl, _, _, _⟩ := from_stages_shape cfg env ws st h
-  rw [graphemeClusters_rep cfg env _ hp.rep, preClusters_eq cfg] at hcl
+  rw [graphemeClusters_rep cfg env _ hrep, preClusters_eq cfg] at hcl
   intro cl hc
   refine ⟨?_, (hlit cl hc).2⟩
   have hc' := hc
@@ -404,13 +404,13 @@ theorem rep_clusters_ok (cfg : Config) (hp : RepPrintNA cfg) (env : Env) (ws : L
 
 /-- **whichever expression `RegExp::from` keeps under `-r`**: every grapheme of every literal is printable, consistent and honours the
 thresholds -/
-theorem rep_final_wfq_na (cfg : Config) (hp : RepPrintNA cfg) (env : Env) (ws : List Str) (st : Stages)
+theorem rep_final_wfq_na (cfg : Config) (hrep : cfg.rep = true) (hmr : 1 ≤ cfg.minRep) (env : Env) (ws : List Str) (st : Stages)
     (h : regExpFrom cfg env ws = .ok st) (hseg : ∀ w ∈ storedCases cfg env ws, SegOK env w)
     (hlen : ∀ w ∈ storedCases cfg env ws, (subPieces (env.segOf w)).length ≤ 1000) (hws : ws ≠ []) :
     st.finalAst.WFQ (okW cfg) := by
   obtain ⟨hsorted, hcl, htrie, hmin, hfirst⟩ := from_stages_shape cfg env ws st h
   change st.sorted = sortCases (storedCases cfg env ws) at hsorted
-  have hall := rep_clusters_ok cfg hp env ws st h hseg hlen
+  have hall := rep_clusters_ok cfg hrep hmr env ws st h hseg hlen
   have hcounts : ∀ cl ∈ st.clusters, ∀ g ∈ cl, g.min = g.max := fun cl hc => (hall cl hc).2
   obtain ⟨ht, _, _, hra⟩ := Dfa.trie_r st.clusters hcounts
   have hr := Dfa.trie_rangeOK st.clusters hcounts
@@ -470,7 +470,7 @@ theorem rep_final_wfq_na (cfg : Config) (hp : RepPrintNA cfg) (env : Env) (ws : 
       exact (hall c hc).1
     · intro hc
       have hcn : st.clusters = [] := by simpa using hc
-      rw [graphemeClusters_rep cfg env _ hp.rep, preClusters_eq cfg] at hcl
+      rw [graphemeClusters_rep cfg env _ hrep, preClusters_eq cfg] at hcl
       rw [hcl] at hcn
       have hs0 : st.sorted = [] := by simpa using hcn
       rw [hsorted] at hs0
@@ -492,7 +492,7 @@ theorem rep_thresholds (cfg : Config) (hp : RepPrintNA cfg) (env : Env) (ws : Li
     (h : regExpFrom cfg env ws = .ok st) (hseg : ∀ w ∈ storedCases cfg env ws, SegOK env w)
     (hlen : ∀ w ∈ storedCases cfg env ws, (subPieces (env.segOf w)).length ≤ 1000) (hws : ws ≠ []) :
     ∃ P, Spec.parse (fmtRegExp cfg st.finalAst) = some (⟨cfg.ci, false⟩, P) ∧ Pat.Thresh cfg.minRep cfg.minLen P := by
-  have hw := rep_final_wfq_na cfg hp env ws st h hseg hlen hws
+  have hw := rep_final_wfq_na cfg hp.rep hp.minRep env ws st h hseg hlen hws
   rw [fmtRegExp_repPrint cfg hp]
   exact printed_thresh cfg cfg.ci cfg.cap cfg.esc cfg.noStart cfg.noEnd st.finalAst hw
 
